@@ -13,6 +13,7 @@ CONSTANTS
   Parts = {TRUE, FALSE}
   MaxCancel = 1
   MaxFault = 0
+  Zeros = FALSE
   Dev = {"quota_uncapped"}
   Record = FALSE
 VIEW View
